@@ -642,21 +642,33 @@ def known_fns():
     return _KNOWN_FNS
 
 
-def new_fn_resolver(facts, files, cfg=None):
+def new_fn_resolver(facts, files, cfg=None, self_ty=None):
     """resolver(name) -> fn node for a *free function* of `files` that is not in spec/known_fns.json (a helper extracted after the
-    rules were written); None for everything else"""
+    rules were written); with `self_ty` also for a new associated function called as `Self::f(..)` / `<self_ty>::f(..)`; None for
+    everything else"""
     table = {}
+    assoc = {}
     for file in files:
         known = set(known_fns().get(file, []))
         for fi in facts.fns(file):
-            if fi.in_test or fi.impl_self is not None or fi.name in known:
+            if fi.in_test:
                 continue
             if cfg is not None and not all(cfg(c) for c in fi.cfg):
                 continue
-            table.setdefault(fi.name, fi.node)
+            if fi.impl_self is None:
+                if fi.name not in known:
+                    table.setdefault(fi.name, fi.node)
+            elif self_ty is not None and fi.impl_self == self_ty and ("%s::%s" % (self_ty, fi.name)) not in known \
+                    and not any("self" in inp for inp in fi.node["sig"]["inputs"]):
+                assoc.setdefault(fi.name, fi.node)
 
     def resolve(name):
-        return table.get(name.split("::")[-1]) if name else None
+        if not name:
+            return None
+        segs = name.split("::")
+        if len(segs) == 2 and segs[0] in ("Self", self_ty) and segs[1] in assoc:
+            return assoc[segs[1]]
+        return table.get(segs[-1]) if (len(segs) == 1 or segs[0] not in ("Self", self_ty)) else None
     return resolve
 
 
